@@ -14,11 +14,12 @@ fn decode_scenario(u: &mut Unstructured, with_failure: bool) -> Scenario {
     let b = u.arbitrary::<u8>().unwrap_or(0);
     let failure = if with_failure {
         let sel = u.arbitrary::<u16>().unwrap_or(0);
-        let kind = match u.arbitrary::<u8>().unwrap_or(0) % 4 {
+        let kind = match u.arbitrary::<u8>().unwrap_or(0) % 5 {
             0 => FailKind::ErrRet,
             1 => FailKind::PanicBefore,
             2 => FailKind::PanicAfterDrop,
-            _ => FailKind::PanicAfterBuild,
+            3 => FailKind::PanicAfterBuild,
+            _ => FailKind::PanicAfterPrevModified,
         };
         Some((sel, kind))
     } else {
@@ -36,7 +37,7 @@ fn decode_scenario(u: &mut Unstructured, with_failure: bool) -> Scenario {
             },
         });
     }
-    Scenario { pair, spare: b % 9, actions, try_entry: b & 0x80 != 0, failure }
+    Scenario { pair, spare: (b % 9) as u16, actions, try_entry: b & 0x80 != 0, failure }
 }
 
 fn report(prop: &str, case: serde_json::Value, sig: &str, msg: &str) -> ! {
